@@ -3,6 +3,7 @@
   Property theorems only (the accumulator logic; see Model/Capture for what is assumed of pipes).
 -/
 import NextestModel.Model.Capture
+import NextestModel.Gen.Tables
 namespace NextestModel.C16
 open NextestModel.Capture
 
@@ -68,5 +69,11 @@ theorem complete_at_eof (sts : List Step) (h : (run init sts).2.1.done = true) :
 theorem leak_exit_keeps_prefix (sts : List Step) : (run init sts).2.1.acc <+: (run init sts).2.2 := by
   have := (prefix_invariant_run sts).1
   rw [this]; exact List.prefix_append _ _
+
+/-- **the reader is always run to the end**: `complete_at_eof` speaks of a reader that keeps reading until end of file (or the
+    leak timeout); in executor.rs, as read on this run, that is `detect_fd_leaks` — called unconditionally after the main loop of a
+    test and of a setup script (also after a timeout termination), with nothing before its loop but the timer and no way out of
+    it but its `break`s -/
+theorem pipes_are_always_drained : ∀ r ∈ Gen.drainAlways, r.2 = true := by decide
 
 end NextestModel.C16
